@@ -360,8 +360,67 @@ where
     run.require(m.len() as u64 >= stats.states / 8, "C19: distinctness oracle saw too few states");
 }
 
+/// "any difference in the nonce changes the subsequent outputs": from a set of coin states, every nonce of a
+/// boundary alphabet (around the field modulus and its multiples, single bits, the extremes) must lead to
+/// pairwise different integers (27 x 8 bits) and to different subsequent draws.
+fn nonce_sensitivity<H: CoinSpec>(run: &Arc<Run>)
+where
+    H::Digest: 'static,
+{
+    let mut alphabet: Vec<u64> = vec![0, 1, 2, 3, (1 << 32) - 1, 1 << 32, (1 << 32) + 1, 1 << 63, u64::MAX - 1, u64::MAX];
+    for b in 0..64 {
+        alphabet.push(1u64 << b);
+        alphabet.push((1u64 << b).wrapping_sub(1));
+    }
+    if H::P < (1u128 << 64) {
+        for k in 1..=4u128 {
+            for r in [-2i128, -1, 0, 1, 2] {
+                let v = (k * H::P) as i128 + r;
+                if v >= 0 && (v as u128) < (1u128 << 64) {
+                    alphabet.push(v as u64);
+                }
+            }
+        }
+    }
+    alphabet.sort();
+    alphabet.dedup();
+    let reseed_data: [H::Digest; 2] = [H::hash_elements(&H::seed(2)), H::hash_elements(&H::seed(3))];
+    let mut cases = 0u64;
+    for seed in 0..4u8 {
+        for reseeds in 0..3usize {
+            let mut seen: HashMap<Vec<u8>, u64> = HashMap::new();
+            for &nonce in alphabet.iter() {
+                let r = pan::catch(|| {
+                    let mut coin = DefaultRandomCoin::<H>::new(&H::seed(seed));
+                    for k in 0..reseeds {
+                        coin.reseed(reseed_data[k % 2]);
+                    }
+                    let ints = coin.draw_integers(27, 256, nonce).map_err(|e| format!("{:?}", e));
+                    let lz = coin.check_leading_zeros(nonce);
+                    let next = H::draw_real(&mut coin, 1);
+                    (ints, lz, next)
+                });
+                cases += 1;
+                match r {
+                    Ok((Ok(ints), _lz, Ok(next))) => {
+                        let mut obs: Vec<u8> = ints.iter().map(|x| *x as u8).collect();
+                        obs.extend(next);
+                        if let Some(other) = seen.insert(obs, nonce) {
+                            run.add_violation(&format!("coin.{}.nonce_sensitivity", H::NAME), cases, &format!("{}: two different nonces lead to the same integers and subsequent outputs", H::NAME), json!({"seed": seed, "reseeds": reseeds, "nonce_1": other, "nonce_2": nonce}));
+                        }
+                    },
+                    Ok((ints, _, next)) => run.add_violation(&format!("coin.{}.nonce_sensitivity", H::NAME), cases, &format!("{}: drawing 27 integers below 256 fails", H::NAME), json!({"seed": seed, "reseeds": reseeds, "nonce": nonce, "ints": format!("{:?}", ints), "next": format!("{:?}", next)})),
+                    Err(p) => run.add_violation(&format!("coin.{}.nonce_sensitivity", H::NAME), cases, &format!("{}: coin panics ({})", H::NAME, p.class()), json!({"seed": seed, "reseeds": reseeds, "nonce": nonce})),
+                }
+            }
+        }
+    }
+    run.add_counts(cases, cases, 0, 0, 0);
+    run.add_class("nonce alphabet members x coin states checked for pairwise different outputs", cases);
+}
+
 pub fn run(run: &Arc<Run>) {
-    run.rule("explicit-state BFS over coin histories {new(4 seeds), reseed(2 digests), draw base/quadratic/cubic, draw_integers(k,2^m,nonce) for 7 (k,m,nonce) triples with k in {1,2,255} and m in {1,8,32}, check_leading_zeros(3 values)} for all six hashers; states keyed by the reference coin's (seed, counter); every transition executed on the real coin and on the reference coin and compared (a trace validated against the implementation); each state additionally probed for its next outputs, which must be a function of, and injective in, the key");
+    run.rule("explicit-state BFS over coin histories {new(4 seeds), reseed(2 digests), draw base/quadratic/cubic, draw_integers(k,2^m,nonce) for 7 (k,m,nonce) triples with k in {1,2,255} and m in {1,8,32}, check_leading_zeros(3 values)} for all six hashers; states keyed by the reference coin's (seed, counter); every transition executed on the real coin and on the reference coin and compared (a trace validated against the implementation); each state additionally probed for its next outputs, which must be a function of, and injective in, the key; nonce sensitivity: from 12 coin states per hasher every nonce of a boundary alphabet (multiples of the field modulus +-2, 2^b and 2^b-1 for every b, the extremes; about 150 values) must lead to pairwise different (27 integers, next draw)");
     run.assume("hash_elements / merge / merge_with_int / Digest::as_bytes of each hasher are correct (C11)");
     run.assume("draw_integers precondition k < 2^m is respected (documented assertion)");
     let t = run.tier();
@@ -371,4 +430,10 @@ pub fn run(run: &Arc<Run>) {
     explore::<hashers::Rp64_256>(run, t.pick(3, 4));
     explore::<hashers::Rp62_248>(run, t.pick(3, 4));
     explore::<hashers::RpJive64_256>(run, t.pick(3, 4));
+    nonce_sensitivity::<hashers::Blake3_256<B64>>(run);
+    nonce_sensitivity::<hashers::Blake3_192<B62>>(run);
+    nonce_sensitivity::<hashers::Sha3_256<B128>>(run);
+    nonce_sensitivity::<hashers::Rp64_256>(run);
+    nonce_sensitivity::<hashers::Rp62_248>(run);
+    nonce_sensitivity::<hashers::RpJive64_256>(run);
 }
